@@ -263,6 +263,11 @@ func (c *FnCtx) assumeShapeFacts(st *State, v Val) {
 		st.assume(fmt.Sprintf("(and (<= 0 %s) (<= 0 %s) (<= %s %s) (>= %s 0))", v.Off(), v.Len(), v.Len(), v.Cap(), v.Base()))
 		st.assume(fmt.Sprintf("(=> (= %s 0) (= %s 0))", v.Base(), v.Cap()))
 		st.assume(fmt.Sprintf("(<= (+ %s %s) 9223372036854775807)", v.Off(), v.Cap()))
+		if sl, ok := v.T.Underlying().(*types.Slice); ok && nonZeroSize(sl.Elem()) {
+			// the Go runtime cannot allocate more than maxAlloc = 2^48 bytes on 64-bit platforms
+			st.assume(fmt.Sprintf("(<= %s 281474976710656)", v.Cap()))
+			c.note("a slice of non-zero-size elements has capacity at most 2^48 (runtime maxAlloc on 64-bit platforms)")
+		}
 	case KStruct, KTuple:
 		for _, f := range v.F {
 			c.assumeShapeFacts(st, f)
@@ -388,4 +393,18 @@ func (c *FnCtx) addrOfPointer(v Val) *Addr {
 	default:
 		return &Addr{Space: "C", Key: typeName(el), Idx: []string{v.S}, Path: "", T: el}
 	}
+}
+
+var gcSizes = types.SizesFor("gc", "amd64")
+
+func nonZeroSize(t types.Type) (ok bool) {
+	defer func() {
+		if recover() != nil {
+			ok = false
+		}
+	}()
+	if _, isTP := t.(*types.TypeParam); isTP {
+		return false
+	}
+	return gcSizes.Sizeof(t) > 0
 }
